@@ -686,6 +686,19 @@ def _run(ctx, rng, corpus):
             if sl is not None:
                 lines.append(sl[0]); impl.append(sl[1]); cases.append(dict(case, op="slot"))
                 ctx.count("slot:" + sl[1].split()[0])
+                if sl[1].startswith("STORED "):
+                    # composition pack -> _unpack_contents (with its rstrip) of a directory of the matching context
+                    from common import unhx
+                    st_b = unhx(sl[1].split()[1])
+                    fl = "CHK" if deep else "SSKRO"
+                    st2, res2 = unpack_with(ro_ctx, fl, pack_entry(u"c", st_b))
+                    if st2 == "exc":
+                        out2 = {"ValueError": "VALUEERROR", "AttributeError": "CRASH"}.get(res2, "EXC " + res2)
+                    elif u"c" not in res2:
+                        out2 = "DROPPED"
+                    else:
+                        out2 = "CHILD %s auth=%s" % (show_node(res2[u"c"][0]), node_authority(res2[u"c"][0]))
+                    lines.append("unp %s %s 0" % (fl, hx(st_b))); impl.append(out2); cases.append(dict(case, op="slot+unp"))
             n = UnknownNode(rw, ro, deep_immutable=deep)
             # monitor: unknown caps keep / strengthen their prefix
             if n.error is not None and (n.rw_uri is not None or n.ro_uri is not None):
